@@ -73,6 +73,8 @@ fn write_script(dir: &Path, g: &Gen) -> String {
                 "killed" => ("cat > /dev/null\nkill -9 $$\n".to_owned(), true),
                 "killed-after-reply" => (format!("cat > /dev/null\ncat reply.{name}\nkill -9 $$\n"), true),
                 "stderr" => (format!("cat > /dev/null\necho 'something went wrong' >&2\ncat reply.{name}\n"), true),
+                // writing to stderr is a failure whatever is written: here only white space
+                "stderr-blank" => (format!("cat > /dev/null\nprintf ' \\t\\n' >&2\ncat reply.{name}\n"), true),
                 "empty-reply" => ("cat > /dev/null\n".to_owned(), true),
                 "truncated" => (format!("cat > /dev/null\nhead -c {cut} reply.{name}\n"), true),
                 "garbage" => ("cat > /dev/null\nprintf '\\377\\376\\375\\374\\373'\n".to_owned(), true),
@@ -104,7 +106,7 @@ fn run_slicec(bin: &str, dir: &Path, args: &[String]) -> Outcome {
 }
 
 pub fn run() -> i32 {
-    let mut rep = Report::new("generators", "the real slicec binary x lists of <= 3 generator scripts: 10 failure modes (missing, killed after a complete reply, not executable, exit 3, killed by SIGKILL, stderr output, empty reply, undecodable bytes, a count with nothing behind it, EVERY proper prefix of a valid two-file reply) in every position among well-behaved generators with different arguments; pairs of failing generators in one list (each named by exactly one error); identical / different / absent pre-existing output files; with and without an output directory");
+    let mut rep = Report::new("generators", "the real slicec binary x lists of <= 3 generator scripts: 11 failure modes (missing, killed after a complete reply, not executable, exit 3, killed by SIGKILL, stderr output, white space only on stderr, empty reply, undecodable bytes, a count with nothing behind it, EVERY proper prefix of a valid two-file reply) in every position among well-behaved generators with different arguments (unsorted, a repeated key, an empty value: received as written, in order); pairs of failing generators in one list (each named by exactly one error); identical / different / absent pre-existing output files; with and without an output directory");
     let Ok(bin) = std::env::var("VERIF_SLICEC_BIN") else { eprintln!("VERIF_SLICEC_BIN not set"); return 2; };
     let base = std::env::var("VERIF_SCRATCH").map(PathBuf::from).unwrap_or_else(|_| std::env::temp_dir());
     let root = base.join(format!("slicec_generators_{}", std::process::id()));
@@ -113,13 +115,13 @@ pub fn run() -> i32 {
     let two = vec![("a/first.txt".to_owned(), "FIRST\n".to_owned()), ("second.txt".to_owned(), "SECOND é\n".to_owned())];
     let full = enc_reply(&two);
     let mut bads: Vec<Gen> = vec![];
-    for mode in ["missing", "not-executable", "exit-3", "killed", "killed-after-reply", "stderr", "empty-reply", "garbage", "trailing-garbage-count"] {
+    for mode in ["missing", "not-executable", "exit-3", "killed", "killed-after-reply", "stderr", "stderr-blank", "empty-reply", "garbage", "trailing-garbage-count"] {
         bads.push(Gen::Bad { name: format!("bad_{}", mode.replace('-', "_")), mode, files: vec![("from_bad.txt".to_owned(), "MUST NOT APPEAR\n".to_owned())], cut: 0 });
     }
     for cut in 0..full.len() {
         bads.push(Gen::Bad { name: format!("cut{cut}"), mode: "truncated", files: two.clone(), cut });
     }
-    let good1 = Gen::Ok { name: "good1".into(), files: vec![("g1/out.txt".to_owned(), "ONE\n".to_owned())], args: vec![("lang", "cs"), ("v", "1")] };
+    let good1 = Gen::Ok { name: "good1".into(), files: vec![("g1/out.txt".to_owned(), "ONE\n".to_owned())], args: vec![("out", "x"), ("lang", "cs"), ("v", "1"), ("include", "a"), ("include", "b"), ("include", "a"), ("debug", "")] };   // not sorted, a repeated key: the pairs arrive as written, in order
     let good2 = Gen::Ok { name: "good2".into(), files: vec![("g2.txt".to_owned(), "TWO\n".to_owned()), ("same.txt".to_owned(), "SAME\n".to_owned()), ("differs.txt".to_owned(), "NEW\n".to_owned())], args: vec![] };
     let mut scenarios: Vec<(Vec<Gen>, bool)> = vec![(vec![good1.clone(), good2.clone()], true), (vec![good2.clone()], false), (vec![good1.clone()], true)];
     for (k, b) in bads.iter().enumerate() {
